@@ -1156,6 +1156,8 @@ class TokenizerCore:
                 and (end + 1 >= self.size or sql[end + 1] != delimiter or delimiter not in escapes)
                 # no backslash in the string that would need escape processing
                 and (not (unescaped_sequences or "\\" in escapes) or sql.find("\\", pos, end) == -1)
+                # a carriage return may be a line break of its own, which only _advance accounts for
+                and sql.find("\r", pos, end) == -1
             ):
                 newlines = sql.count("\n", pos, end)
                 if newlines:
